@@ -119,6 +119,8 @@ structure Layout (F : FTy) (p eb : Nat) : Prop where
   hp : 2 ≤ p
   hp64 : p + eb ≤ 64
   heb : 2 ≤ eb
+  heb16 : eb ≤ 16
+  hL : 63 ≤ 2 ^ (eb - 1) - 1 + (p - 1) - 1
 
 theorem layout_f64 : Layout FTy.f64 53 11 := by
   constructor <;> decide
